@@ -310,8 +310,15 @@ impl Default for ScrapeExportConfig {
 }
 
 impl ScrapeExportConfig {
+    /// Path of the temporary file an export is written to before it is moved
+    /// to `path`. Appends ".tmp" to the file name (rather than replacing the
+    /// extension), so that it differs from `path` whatever its extension is.
     pub fn tmp_path(&self) -> PathBuf {
-        self.path.with_extension("tmp")
+        let mut tmp_path = self.path.clone().into_os_string();
+
+        tmp_path.push(".tmp");
+
+        tmp_path.into()
     }
 }
 
